@@ -216,6 +216,11 @@ func configs(rng *vkit.Rng, tr *testRegion, n, budget int) []s2.RegionCoverer {
 		rc.LevelMod = 1 + rng.Intn(3)
 		rc.MinLevel = rng.Intn(hiMin + 1)
 		rc.MaxLevel = rc.MinLevel + rng.Intn(31-rc.MinLevel)
+		if rng.Intn(2) == 0 {
+			// MaxLevel close to the level of the region's own size, so that it binds
+			// (mutations of the "level+levelMod > MaxLevel" tests are only visible then)
+			rc.MaxLevel = mini(30, maxi(rc.MinLevel, base-1+rng.Intn(6)))
+		}
 		switch rng.Intn(10) {
 		case 0: // MinLevel > MaxLevel
 			// (every cell is first cut down to MaxLevel and then expanded to MinLevel: 4^(difference) cells each)
@@ -274,7 +279,18 @@ func runC05(c *vkit.Collector, rng *vkit.Rng, budget int) {
 		predicateSafety(c, rng, tr, 24*mini(budget, 4))
 	}
 	synthetic(c, rng, budget)
-	c.ShardSize = maxi(8, (len(c.Cases)+7)/8) // heavy cases: 8 shards evaluate in parallel
+	// heavy cases: 8 shards evaluate in parallel; deal the cases out by decreasing size so that the shards are balanced
+	const shards = 8
+	sort.SliceStable(c.Cases, func(i, j int) bool { return len(c.Cases[i].Term) > len(c.Cases[j].Term) })
+	per := (len(c.Cases) + shards - 1) / shards
+	dealt := make([]vkit.Case, 0, len(c.Cases))
+	for k := 0; k < shards; k++ {
+		for j := k; j < len(c.Cases); j += shards {
+			dealt = append(dealt, c.Cases[j])
+		}
+	}
+	c.Cases = dealt
+	c.ShardSize = maxi(8, per)
 }
 
 // corpus: committed regression inputs, run first on every run.
